@@ -156,25 +156,8 @@ Definition read_gcd (range : N) (s : bits) : res (N * bits) :=
     if range <=? g1 then Err Corruption else Ok (g1 + 1, s2)
   else Ok (1, s1).
 
-(* `p.upper != p.lower` is evaluated on values of the prefix's number type: for floats
-   that is IEEE comparison (NaN != NaN; -0.0 == +0.0), for every other type it is
-   comparison of the integers. *)
-Definition float_is_nan (w : N) (b : N) : bool :=
-  let mant_bits := if w =? 32 then 23 else 52 in
-  let m := b mod pow2 (w - 1) in
-  pow2 (w - 1) - pow2 mant_bits <? m.
-Definition float_is_zero (w : N) (b : N) : bool := (b mod pow2 (w - 1)) =? 0.
-Definition val_neq (pd : dtype) (lo up : N) : bool :=
-  match kind pd with
-  | KFloat =>
-      let w := ubits pd in
-      let a := Z.to_N (of_u pd lo) in
-      let b := Z.to_N (of_u pd up) in
-      float_is_nan w a || float_is_nan w b ||
-      (negb (a =? b) && negb (float_is_zero w a && float_is_zero w b))
-  | KBool => negb (Bool.eqb (0 <? lo) (0 <? up))
-  | _ => negb (lo =? up)
-  end.
+(* whether a prefix's range holds more than one value: bounds compared as unsigneds *)
+Definition val_neq (pd : dtype) (lo up : N) : bool := negb (lo =? up).
 
 (* gcd_utils::common_gcd_for_chunk_meta *)
 Fixpoint common_gcd_scan (pd : dtype) (ps : list prefix) (g : option N) (share : bool)
@@ -378,6 +361,56 @@ Definition read_code (ps : list prefix) (s : bits) : res (prefix * bits) :=
   | None => Err InsufficientData
   end.
 
+(* Huffman search as the real reader performs it (huffman_decoding.rs, bit_reader.rs
+   read_prefix_table_idx): a tree of tables with strides of up to 6 bits.  With plenty of
+   data this is [read_code]; near the end of the available data the outcome depends on how
+   many bits are left for the current stride and on where the 64-bit word boundary falls:
+     - stride fits in the current word: min(stride, bits left) bits are read;
+     - stride crosses into a word that exists: the whole stride is read (zero padding
+       included);
+     - stride crosses into a word that does not exist yet: the rest of this word is read,
+       but the position is left a word too far, so the block fails for lack of data.
+   A short read succeeds only if it ends exactly on a leaf.  [tb] is the number of bits
+   held (words are aligned to bit 0 of the held bytes). *)
+Fixpoint compatible (c b : bits) : bool :=
+  match c, b with
+  | x :: c', y :: b' => Bool.eqb x y && compatible c' b'
+  | _, _ => true
+  end.
+Fixpoint tsearch (fuel : nat) (tb : N) (cands : list prefix) (dpt : nat) (s : bits) : res prefix :=
+  match cands with
+  | [p] => Ok p
+  | _ =>
+    match fuel with
+    | O => Err InsufficientData
+    | S f =>
+      let t := Nat.min 6 (max_code_len cands - dpt) in
+      let a := length s in
+      if Nat.eqb a 0 then Err InsufficientData else
+      let j := N.to_nat ((tb - Nlen s) mod 64) in
+      let e := (64 - j)%nat in
+      if negb (Nat.leb (t + j) 64) && negb (Nat.ltb e a) then
+        (* the short read at the end of the last word leaves the reader's position a whole
+           word too far, so the bounds check of whatever is read next fails *)
+        Err InsufficientData
+      else
+      let bits_read := if Nat.leb (t + j) 64 then Nat.min t a else t in
+      let idxbits := firstn t (s ++ repeat false t) in
+      let cands' := filter (fun p => compatible (skipn dpt (p_code p)) idxbits) cands in
+      if Nat.eqb bits_read t then tsearch f tb cands' (dpt + t) (skipn t s)
+      else match cands' with
+           | [p] => if Nat.eqb (length (p_code p)) (dpt + bits_read) then Ok p
+                    else Err InsufficientData
+           | _ => Err InsufficientData
+           end
+    end
+  end.
+Definition read_code_at (tb : N) (ps : list prefix) (s : bits) : res (prefix * bits) :=
+  do p <- tsearch 33 tb ps 0 s;
+  (* the next read is bounds-checked: a code found with the help of padding bits fails there *)
+  if Nat.leb (length (p_code p)) (length s) then Ok (p, skipn (length (p_code p)) s)
+  else Err InsufficientData.
+
 (* ---------------- number blocks: writer side (compress_nums) ---------------- *)
 Definition contains (p : prefix) (u : N) : bool := (p_lower p <=? u) && (u <=? p_upper p).
 Definition find_prefix (ps : list prefix) (u : N) : option prefix := find (fun p => contains p u) ps.
@@ -454,13 +487,13 @@ Record batch_out := mkBatch {
   b_status : status }.
 
 (* the block loop: [room] numbers still wanted in this batch *)
-Fixpoint read_blocks (fuel : nat) (w : N) (ps : list prefix) (room : N) (s : bits)
+Fixpoint read_blocks (fuel : nat) (w tb : N) (ps : list prefix) (room : N) (s : bits)
   : list N * bits * option (prefix * N) * status :=
   match fuel with
   | O => ([], s, None, SOk)
   | S f =>
     if room =? 0 then ([], s, None, SOk) else
-    match read_code ps s with
+    match read_code_at tb ps s with
     | Err k => ([], s, None, SErr k)
     | Panic => ([], s, None, SPanic)
     | Ok (p, s1) =>
@@ -468,7 +501,7 @@ Fixpoint read_blocks (fuel : nat) (w : N) (ps : list prefix) (room : N) (s : bit
       | None =>
         match read_offsets w p 1 s1 with
         | (l, s2, SOk) =>
-            let '(l', s3, inc, st) := read_blocks f w ps (room - 1) s2 in
+            let '(l', s3, inc, st) := read_blocks f w tb ps (room - 1) s2 in
             (l ++ l', s3, inc, st)
         | (_, _, st) => ([], s, None, st)     (* block not started: stay at block start *)
         end
@@ -483,7 +516,7 @@ Fixpoint read_blocks (fuel : nat) (w : N) (ps : list prefix) (room : N) (s : bit
           | (l, s3, SOk) =>
               if room <? full then (l, s3, Some (p, full - room), SOk)
               else
-                let '(l', s4, inc, st) := read_blocks f w ps (room - reps) s3 in
+                let '(l', s4, inc, st) := read_blocks f w tb ps (room - reps) s3 in
                 (l ++ l', s4, inc, st)
           | (l, s3, st) =>
               match l with
@@ -496,7 +529,7 @@ Fixpoint read_blocks (fuel : nat) (w : N) (ps : list prefix) (room : N) (s : bit
     end
   end.
 
-Definition read_batch (w : N) (ps : list prefix) (n_left : N) (inc : option (prefix * N))
+Definition read_batch (w tb : N) (ps : list prefix) (n_left : N) (inc : option (prefix * N))
            (limit : N) (eoi : bool) (s : bits) : batch_out :=
   let batch_size := N.min n_left limit in
   let completed := n_left <=? limit in
@@ -518,12 +551,12 @@ Definition read_batch (w : N) (ps : list prefix) (n_left : N) (inc : option (pre
     match st with
     | SOk =>
       let '(l2, s2, inc2, st2) :=
-          read_blocks (N.to_nat (batch_size - Nlen l)) w ps (batch_size - Nlen l) s1 in
+          read_blocks (N.to_nat (batch_size - Nlen l)) w tb ps (batch_size - Nlen l) s1 in
       finish (l ++ l2) s2 (match inc2 with Some _ => inc2 | None => inc1 end) st2
     | _ => finish l s1 inc1 st
     end
   | None =>
-    let '(l, s1, inc1, st) := read_blocks (N.to_nat batch_size) w ps batch_size s in
+    let '(l, s1, inc1, st) := read_blocks (N.to_nat batch_size) w tb ps batch_size s in
     finish l s1 inc1 st
   end.
 
